@@ -110,6 +110,9 @@ Clauses(fam, a) ==
           optdims_distinct |-> IsInj(a.optdims)]
     [] fam = "ctor_sptenmat_neg" -> \* a: minrow, mincol (smallest row / column subscript of any entry)
          [nonneg |-> a.minrow >= 0 /\ a.mincol >= 0]
+    [] fam = "nvecs_args" ->    \* a: shape, n (mode), r (number of leading vectors)
+         [mode_in_range  |-> a.n \in 0..(N_(a) - 1),
+          count_in_range |-> a.n \in 0..(N_(a) - 1) => a.r \in 1..a.shape[a.n + 1]]
     [] fam = "sym_groups" ->    \* a: N (order of a cubical tensor), grps (groups of modes, all of one length), version (0 default, 1 older)
          [modes_in_range  |-> \A g \in 1..Len(a.grps) : \A k \in 1..Len(a.grps[g]) : a.grps[g][k] \in 0..(a.N - 1),
           groups_disjoint |-> \A g, h \in 1..Len(a.grps) : \A k \in 1..Len(a.grps[g]) : \A l \in 1..Len(a.grps[h]) :
